@@ -1,8 +1,408 @@
 package interp
 
-func initLibExternals() {}
+// Models of third-party libraries: protobuf (typed deep snapshot), gotomic.Hash
+// (linearizable map), memberlist.TransmitLimitedQueue (FIFO), sha256 (real
+// digest of pinned input), uuid (fresh ids).
+
+import (
+	"crypto/sha256"
+	"fmt"
+	"go/types"
+	"reflect"
+	"strings"
+
+	"symx/term"
+)
 
 func (i *interpreter) preemptMem(addr interface{}, write bool) {}
 
 func schedChoice(i *interpreter, n int) int          { return 0 }
 func preemptChoice(i *interpreter, what string) bool { return false }
+
+// ---------- protobuf ----------
+
+// pbsnap is an immutable deep copy of a message's proto fields.
+type pbsnap struct {
+	typ    *types.Struct
+	named  types.Type
+	fields []value // indexed like the struct; non-proto fields nil
+}
+
+// blobByte is an element of a marshalled buffer: opaque, copyable, and pointing back at the snapshot.
+type blobByte struct {
+	snap *pbsnap
+	idx  int
+}
+
+func protoFieldTag(st *types.Struct, k int) bool {
+	return strings.Contains(reflect.StructTag(st.Tag(k)).Get("protobuf"), ",") || reflect.StructTag(st.Tag(k)).Get("protobuf_key") != ""
+}
+
+func structOfMsg(t types.Type) (*types.Struct, types.Type) {
+	if p, ok := t.Underlying().(*types.Pointer); ok {
+		if st, ok := p.Elem().Underlying().(*types.Struct); ok {
+			return st, p.Elem()
+		}
+	}
+	return nil, nil
+}
+
+// snapField deep-copies v of static type t; def accumulates "is default" as (concrete, term).
+func (i *interpreter) snapField(t types.Type, v value, defC *bool, defT **term.Term) value {
+	note := func(c bool, tm *term.Term) {
+		*defC = *defC && c
+		*defT = i.andOpt(*defT, c, tm)
+	}
+	switch ut := t.Underlying().(type) {
+	case *types.Basic:
+		switch x := v.(type) {
+		case sv:
+			w, _, _ := kindOf(x.c)
+			if w == 0 {
+				note(!x.c.(bool), i.tb.Not(x.t))
+			} else {
+				note(toBits(x.c) == 0, i.tb.Eq(x.t, i.tb.BV(w, 0)))
+			}
+		case string, sstr:
+			note(strLen(x) == 0, nil)
+		case bool:
+			note(!x, nil)
+		case float32:
+			note(x == 0, nil)
+		case float64:
+			note(x == 0, nil)
+		case blobByte:
+			note(false, nil)
+		default:
+			note(toBits(x) == 0, nil)
+		}
+		return v
+	case *types.Slice:
+		s, _ := v.([]value)
+		note(len(s) == 0, nil)
+		if len(s) == 0 {
+			return []value(nil)
+		}
+		out := make([]value, len(s))
+		var dc bool
+		var dt *term.Term
+		for k, e := range s {
+			if st, _ := structOfMsg(ut.Elem()); st != nil {
+				out[k] = i.snapMsg(ut.Elem(), e, true)
+			} else {
+				dc, dt = true, nil
+				out[k] = i.snapField(ut.Elem(), e, &dc, &dt)
+			}
+		}
+		return out
+	case *types.Pointer:
+		if st, _ := structOfMsg(t); st != nil {
+			p := v.(*value)
+			note(p == nil, nil)
+			if p == nil {
+				return (*pbsnap)(nil)
+			}
+			return i.snapMsg(t, v, false)
+		}
+	case *types.Map:
+		m, _ := v.(*omap)
+		note(m.len() == 0, nil)
+		if m.len() == 0 {
+			return (*omap)(nil)
+		}
+		out := makeMap(ut.Key(), 0).(*omap)
+		var dc bool
+		var dt *term.Term
+		for _, e := range m.entries {
+			dc, dt = true, nil
+			var val value
+			if st, _ := structOfMsg(ut.Elem()); st != nil {
+				val = i.snapMsg(ut.Elem(), e.val, true)
+			} else {
+				val = i.snapField(ut.Elem(), e.val, &dc, &dt)
+			}
+			out.insert(i, e.key, val, "proto-map")
+		}
+		return out
+	case *types.Interface:
+		// oneof: not used by wasp
+		if v.(iface).t == nil {
+			return v
+		}
+	}
+	unsupported("protobuf model: field of type %s", t)
+	return nil
+}
+
+// snapMsg snapshots the message pointed to by v (static type t = *T). nilAsEmpty: a nil element of a repeated field.
+func (i *interpreter) snapMsg(t types.Type, v value, nilAsEmpty bool) *pbsnap {
+	st, named := structOfMsg(t)
+	s := &pbsnap{typ: st, named: named, fields: make([]value, st.NumFields())}
+	p := v.(*value)
+	var src structure
+	if p == nil {
+		src = zero(named).(structure)
+	} else {
+		src = (*p).(structure)
+	}
+	dc := true
+	var dt *term.Term
+	for k := 0; k < st.NumFields(); k++ {
+		if !protoFieldTag(st, k) {
+			continue
+		}
+		s.fields[k] = i.snapField(st.Field(k).Type(), src[k], &dc, &dt)
+	}
+	return s
+}
+
+// isDefault recomputes whether the snapshot encodes to zero bytes.
+func (i *interpreter) snapDefault(t types.Type, v value) (bool, *term.Term) {
+	st, named := structOfMsg(t)
+	p := v.(*value)
+	if p == nil {
+		return true, nil
+	}
+	src := (*p).(structure)
+	_ = named
+	dc := true
+	var dt *term.Term
+	for k := 0; k < st.NumFields(); k++ {
+		if !protoFieldTag(st, k) {
+			continue
+		}
+		i.snapField(st.Field(k).Type(), src[k], &dc, &dt)
+	}
+	return dc, dt
+}
+
+func (i *interpreter) rebuildField(t types.Type, v value) value {
+	switch ut := t.Underlying().(type) {
+	case *types.Basic:
+		return v
+	case *types.Slice:
+		s, _ := v.([]value)
+		if len(s) == 0 {
+			return []value(nil)
+		}
+		out := make([]value, len(s))
+		for k, e := range s {
+			if st, _ := structOfMsg(ut.Elem()); st != nil {
+				out[k] = i.rebuildMsg(e.(*pbsnap))
+			} else {
+				out[k] = i.rebuildField(ut.Elem(), e)
+			}
+		}
+		return out
+	case *types.Pointer:
+		s := v.(*pbsnap)
+		if s == nil {
+			return (*value)(nil)
+		}
+		return i.rebuildMsg(s)
+	case *types.Map:
+		m, _ := v.(*omap)
+		if m.len() == 0 {
+			return (*omap)(nil)
+		}
+		out := makeMap(ut.Key(), 0).(*omap)
+		for _, e := range m.entries {
+			var val value
+			if st, _ := structOfMsg(ut.Elem()); st != nil {
+				val = i.rebuildMsg(e.val.(*pbsnap))
+			} else {
+				val = i.rebuildField(ut.Elem(), e.val)
+			}
+			out.insert(i, e.key, val, "proto-map")
+		}
+		return out
+	case *types.Interface:
+		return v
+	}
+	unsupported("protobuf model: rebuild field of type %s", t)
+	return nil
+}
+
+func (i *interpreter) rebuildMsg(s *pbsnap) *value {
+	var cell value = zero(s.named)
+	dst := cell.(structure)
+	for k := 0; k < s.typ.NumFields(); k++ {
+		if s.fields[k] != nil || protoFieldTag(s.typ, k) {
+			if protoFieldTag(s.typ, k) {
+				dst[k] = i.rebuildField(s.typ.Field(k).Type(), s.fields[k])
+			}
+		}
+	}
+	return &cell
+}
+
+func extProtoMarshal(fr *frame, args []value) value {
+	i := fr.i
+	m := args[0].(iface)
+	if m.t == nil {
+		return tuple{[]value(nil), i.makeError("proto: Marshal called with nil")}
+	}
+	st, _ := structOfMsg(m.t)
+	if st == nil {
+		unsupported("protobuf model: Marshal of %s", m.t)
+	}
+	if m.v.(*value) == nil {
+		return tuple{[]value(nil), i.makeError("proto: Marshal called with nil")}
+	}
+	dc, dt := i.snapDefault(m.t, m.v)
+	snap := i.snapMsg(m.t, m.v, false)
+	if i.record(i.mk(dc, dt), RecIf, "proto-empty") {
+		return tuple{make([]value, 0), iface{}}
+	}
+	return tuple{[]value{blobByte{snap, 0}}, iface{}}
+}
+
+func extProtoUnmarshal(fr *frame, args []value) value {
+	i := fr.i
+	buf, _ := args[0].([]value)
+	m := args[1].(iface)
+	st, named := structOfMsg(m.t)
+	if st == nil || m.v.(*value) == nil {
+		unsupported("protobuf model: Unmarshal into %v", m.t)
+	}
+	dst := m.v.(*value)
+	if len(buf) == 0 {
+		store(named, dst, zero(named))
+		return iface{}
+	}
+	bb, ok := buf[0].(blobByte)
+	if !ok || bb.idx != 0 || len(buf) != 1 {
+		unsupported("protobuf model: Unmarshal of bytes that are not a whole marshalled message")
+	}
+	if !types.Identical(bb.snap.named, named) {
+		unsupported("protobuf model: Unmarshal of %s into %s", bb.snap.named, named)
+	}
+	store(named, dst, *i.rebuildMsg(bb.snap))
+	return iface{}
+}
+
+// ---------- gotomic.Hash ----------
+
+type gotomicKey struct{ p *value }
+
+func (i *interpreter) gotomicMap(p *value) *omap {
+	return i.sideGet(gotomicKey{p}, func() interface{} {
+		return &omap{keyType: types.NewInterfaceType(nil, nil)}
+	}).(*omap)
+}
+
+// ---------- broadcast queue ----------
+
+type bqKey struct{ p *value }
+
+func initLibExternals() {
+	for _, pkg := range []string{"github.com/golang/protobuf/proto", "github.com/gogo/protobuf/proto"} {
+		externals[pkg+".Marshal"] = extProtoMarshal
+		externals[pkg+".Unmarshal"] = extProtoUnmarshal
+	}
+	for k, v := range map[string]externalFn{
+		"github.com/zond/gotomic.NewHash": func(fr *frame, a []value) value {
+			tp := fr.i.prog.ImportedPackage("github.com/zond/gotomic")
+			var cell value = zero(tp.Type("Hash").Type())
+			return &cell
+		},
+		"(*github.com/zond/gotomic.Hash).PutIfMissing": func(fr *frame, a []value) value {
+			fr.i.preempt("gotomic")
+			m := fr.i.gotomicMap(ptrArg(a[0]))
+			if e := m.find(fr.i, a[1], "gotomic"); e != nil {
+				return false
+			}
+			m.insert(fr.i, a[1], a[2], "gotomic")
+			return true
+		},
+		"(*github.com/zond/gotomic.Hash).Put": func(fr *frame, a []value) value {
+			fr.i.preempt("gotomic")
+			m := fr.i.gotomicMap(ptrArg(a[0]))
+			if e := m.find(fr.i, a[1], "gotomic"); e != nil {
+				old := e.val
+				e.val = a[2]
+				return tuple{old, true}
+			}
+			m.insert(fr.i, a[1], a[2], "gotomic")
+			return tuple{iface{}, false}
+		},
+		"(*github.com/zond/gotomic.Hash).Get": func(fr *frame, a []value) value {
+			fr.i.preempt("gotomic")
+			m := fr.i.gotomicMap(ptrArg(a[0]))
+			if e := m.find(fr.i, a[1], "gotomic"); e != nil {
+				return tuple{e.val, true}
+			}
+			return tuple{iface{}, false}
+		},
+		"(*github.com/zond/gotomic.Hash).Delete": func(fr *frame, a []value) value {
+			fr.i.preempt("gotomic")
+			m := fr.i.gotomicMap(ptrArg(a[0]))
+			if e := m.find(fr.i, a[1], "gotomic"); e != nil {
+				v := e.val
+				e.deleted = true
+				for j, x := range m.entries {
+					if x == e {
+						m.entries = append(m.entries[:j:j], m.entries[j+1:]...)
+						break
+					}
+				}
+				return tuple{v, true}
+			}
+			return tuple{iface{}, false}
+		},
+		"(*github.com/zond/gotomic.Hash).Size": func(fr *frame, a []value) value {
+			return fr.i.gotomicMap(ptrArg(a[0])).len()
+		},
+		"(*github.com/hashicorp/memberlist.TransmitLimitedQueue).QueueBroadcast": func(fr *frame, a []value) value {
+			k := bqKey{ptrArg(a[0])}
+			l, _ := fr.i.side[k].([]value)
+			fr.i.side[k] = append(l, a[1])
+			return nil
+		},
+		"(*github.com/hashicorp/memberlist.TransmitLimitedQueue).NumQueued": func(fr *frame, a []value) value {
+			l, _ := fr.i.side[bqKey{ptrArg(a[0])}].([]value)
+			return len(l)
+		},
+		// rt.Drain(q) [][]byte: messages queued since the last drain, oldest first
+		RT + ".Drain": func(fr *frame, a []value) value {
+			q := a[0].(iface).v.(*value)
+			k := bqKey{q}
+			l, _ := fr.i.side[k].([]value)
+			fr.i.side[k] = []value(nil)
+			out := make([]value, 0, len(l))
+			for _, b := range l {
+				bi := b.(iface)
+				f := fr.i.prog.LookupMethod(bi.t, nil, "Message")
+				if f == nil {
+					unsupported("broadcast without Message method")
+				}
+				out = append(out, call(fr.i, fr, 0, f, []value{bi.v}))
+			}
+			return out
+		},
+		"crypto/sha256.Sum256": func(fr *frame, a []value) value {
+			in := fr.i.concStr(bytesToStr(a[0].([]value)), "sha256 input")
+			sum := sha256.Sum256([]byte(in))
+			out := make(array, 32)
+			for k := range out {
+				out[k] = sum[k]
+			}
+			return out
+		},
+		"github.com/google/uuid.New": func(fr *frame, a []value) value {
+			fr.i.fresh++
+			out := make(array, 16)
+			s := fmt.Sprintf("%016d", fr.i.fresh)
+			for k := range out {
+				out[k] = s[k]
+			}
+			return out
+		},
+		"github.com/google/uuid.NewString": func(fr *frame, a []value) value {
+			fr.i.fresh++
+			return fmt.Sprintf("uuid-%d", fr.i.fresh)
+		},
+	} {
+		externals[k] = v
+	}
+}
